@@ -25,6 +25,13 @@ def check_case(case):
     c.connect(a, window=case["win"][2], blocking=False, delay_dist=dd(2, 0.0))
     a.connect(c, window=case["win"][3], blocking=False, skip=True, delay_dist=dd(3, 0.005))
     nodes = {"a": a, "b": b, "c": c}
+    # sink nodes (never ancestors of a supervisor step): a slow one and a fast one, so that start order and end order of non-ancestors differ
+    if case.get("sinks", True):
+        slow = N(name="slow", rate=2.0, delay_dist=Deterministic(0.4))
+        fast = N(name="fast", rate=20.0, delay_dist=Deterministic(0.005))
+        slow.connect(a, window=1, blocking=False, delay_dist=Deterministic(0.001))
+        fast.connect(a, window=1, blocking=False, delay_dist=Deterministic(0.001))
+        nodes.update(slow=slow, fast=fast)
     g_raw = generate_graphs(nodes, case["ts_max"], num_episodes=case["eps"], rng=jax.random.PRNGKey(case["key"]))
     graph = Graph(nodes=nodes, supervisor=c, graphs_raw=g_raw, supergraph=getattr(const.Supergraph, case["mode"]), prune=case["prune"], progress_bar=False)
     T = jax.tree_util.tree_map(np.array, graph.timings)
@@ -40,9 +47,31 @@ def check_case(case):
     def err(msg):
         if len(bad) < 12:
             bad.append(msg)
+    from rex import utils as rutils
     for e in range(n_eps):
         G = graph._Gs[e]
         mono = graph._Gs_monomorphism[e]
+        # ---- to_connected_graph's own contract (prune off), checked directly on the real function for every case:
+        # every vertex that is not an ancestor of the last supervisor step but ends no later than some supervisor step starts
+        # gets an edge to the FIRST supervisor step starting at or after its end; nothing else is added
+        Gc = rutils.to_connected_graph(G, c, nodes)
+        sups = sorted([n for n, d in G.nodes(data=True) if d["kind"] == sup], key=lambda n: G.nodes[n]["ts_start"])
+        if sups:
+            anc = nx.ancestors(G, sups[-1]) | {sups[-1]}
+            for v, d in G.nodes(data=True):
+                if v in anc:
+                    continue
+                checks += 1
+                target = next((sn for sn in sups if G.nodes[sn]["ts_start"] >= d["ts_end"]), None)
+                new_edges = [w for w in Gc.successors(v) if not G.has_edge(v, w)]
+                if target is None:
+                    if new_edges:
+                        err(f"eps {e}: to_connected_graph attaches {v} (ends {d['ts_end']:.3f}) although no supervisor step starts after it")
+                elif new_edges != [target]:
+                    err(f"eps {e}: to_connected_graph attaches non-ancestor {v} (ends {d['ts_end']:.3f}) to {new_edges}, expected [{target}] (starts {G.nodes[target]['ts_start']:.3f})")
+            extra = [(u, w) for u, w in Gc.edges if not G.has_edge(u, w) and u in anc]
+            if extra:
+                err(f"eps {e}: to_connected_graph adds edges from ancestors: {extra[:3]}")
         used = {}
         exec_pos = {}
         for n2, (p, slot) in mono.items():
